@@ -306,9 +306,7 @@ class GcModel:
             f = args[1]
             body_key = None
             if f[0] == "adt" and str(f[1]).startswith("closure:"):
-                cdef = f[1][len("closure:"):]
-                ks = m.prog.seed_n.get(norm(cdef))
-                body_key = ks[0] if ks else None
+                body_key = I.closure_body_key(m.prog, f)
             out = [(s2, "ret", ("valref", "?"))]
             if body_key:
                 env = st.new_alloc("env", f)
